@@ -224,6 +224,26 @@ example : ¬ atomRevCompat.Coherent (fun n => if n == "python_version" then some
 /-- and it is not merged: `"3.8" ~= python_version and python_version > "3.8"` stays a conjunction -/
 example : mergeSingle atomRevCompat atomPvGt true = none := by decide
 
+/-- `implementation_version == "3.8"`: `_evaluate` compares it as a version (MARKERS_REQUIRING_VERSION), its
+    specifier view is a string comparison (it is not in `_VERSION_LIKE_MARKER_NAME`).  Before the `fix:` for D24
+    two such atoms were merged through the string view (`== "3.8" or == "3.9"` became a group that is false on
+    3.8.0).  Now `Atom.exactView` is false for the variable and the atom is a Good, opaque atom. -/
+def atomImpl : Atom := ⟨"implementation_version", .eq, "3.8", false, .gen ⟨.eq, "3.8"⟩⟩
+
+theorem atomImpl_good : GoodAtom env0 atomImpl := by
+  refine ⟨by unfold Atom.WF; decide, ?_⟩
+  have h1 : atomImpl.name ≠ "extra" := by decide
+  have h2 : setNames.contains atomImpl.name = false := by decide
+  have h3 : versionLikeNames.contains atomImpl.name = false := by decide
+  simp only [h1, if_false, h2, Bool.false_eq_true, h3]
+  exact Or.inr (by decide)
+
+/-- the string view really is inexact: on implementation_version 3.8.0 the atom is true, `== "3.8"` as strings is not -/
+example : ¬ atomImpl.Coherent (fun n => if n == "implementation_version" then some (.str "3.8.0") else env0 n) := by
+  unfold Atom.Coherent; decide
+
+example : mergeSingle atomImpl ⟨"implementation_version", .eq, "3.9", false, .gen ⟨.eq, "3.9"⟩⟩ false = none := by decide
+
 /-- instances of the character-level facts (now theorems), evaluated in the kernel -/
 example : SpecParse.parseAltsText ((MOp.ofCOp .ge).str ++ fsText "python_full_version" ⟨.ge, { release := [3, 8] }, false⟩)
     = some [.clauses [fsC "python_full_version" ⟨.ge, { release := [3, 8] }, false⟩]] := by decide
